@@ -114,6 +114,11 @@ def case_table():
     bij("Concatenate", lambda k: B.Concatenate([B.Affine(jnp.ones(1)), B.Exp((2,))]))
     bij("Stack", lambda k: B.Stack([B.Affine(jnp.asarray(1.0)), B.Exp(), B.SoftPlus()]))
     bij("Vmap", lambda k: B.Vmap(B.RationalQuadraticSpline(knots=3, interval=2), axis_size=3))
+    # rarely used keywords of the combinators (seeded change C14d: numpy ints in a non-static shape field break jit)
+    bij("VmapCondAxis1", lambda k: B.Vmap(B.MaskedAutoregressive(k, transformer=B.Affine(), dim=2, cond_dim=2, nn_width=4, nn_depth=1), axis_size=3,
+                                          in_axes_condition=1), (2, 3))
+    bij("VmapCondAxis0", lambda k: B.Vmap(B.AdditiveCondition(lin, (2,), (2,)), axis_size=3, in_axes_condition=0), (3, 2))
+    bij("VmapCondBroadcast", lambda k: B.Vmap(B.AdditiveCondition(lin, (2,), (2,)), axis_size=3), (2,))
     bij("Scan", lambda k: B.Scan(eqx.filter_vmap(B.Affine)(jnp.array([[1.0, 0.5, -0.5], [0.25, 0.0, 1.0]]))))
     bij("Invert", lambda k: B.Invert(B.Affine(jnp.ones(3), jnp.array([0.5, 2.0, 1.5]))))
     bij("Partial", lambda k: B.Partial(B.Exp((2,)), jnp.array([0, 2]), (3,)), noperturb=True)
